@@ -15,6 +15,8 @@ pub struct Case {
 pub fn decode(bytes: &[u8]) -> Case {
     let mut u = Un::new(bytes);
     let mut names = Names::new();
+    // long option names make usage lines and terms that have to be wrapped
+    names.long_names = true;
     let level = gen_wild_level(&mut u, &mut names, 0);
     let n = 1 + u.below(3);
     let mut lines = Vec::new();
